@@ -544,10 +544,12 @@ def api_correspond(ctx, defs, terms, tcases):
 
 # ================================================================ reloads while selections are in flight
 def conc_case(rng):
-    a1, b2, c1, d3 = (life_cfg(rng) for _ in range(4))
-    files = [good_file({1: a1, 2: b2}), good_file({1: c1, 3: d3})]
-    return {"op": "lifeconc", "files": files, "sels": [sels_for(rng, [1, 2, 3])], "workers": 4, "rounds": 3, "reloads": 24,
-            "tag": "lifeconc"}
+    """a monotone sequence of files: every generation's configuration differs from step to step; 2 is retired by the first
+    reload and comes back later on other subnets, 3 appears, 1 is retired at the end"""
+    c = [life_cfg(rng) for _ in range(9)]
+    files = [good_file({1: c[0], 2: c[1]}), good_file({1: c[2]}), good_file({1: c[3], 3: c[4]}),
+             good_file({1: c[5], 2: c[6], 3: c[4]}), good_file({2: c[7], 3: c[8]})]
+    return {"op": "lifeconc", "files": files, "sels": [sels_for(rng, [1, 2, 3])], "workers": 4, "rounds": 2, "tag": "lifeconc"}
 
 
 def gen_conc(ctx, replayed=()):
@@ -593,18 +595,33 @@ def conc_evaluate(ctx, cases, sres, rres, race=False):
             if r.get("stage") != "ok":
                 ctx.broken("driver-lifeconc-" + name, "%s concurrent-reload run: stage %s" % (name, r.get("stage")), b1)
                 continue
-            ctx.count(("lifeconc", name, to_json(c), r["reloads"]), nontrivial=True, kind="lifeconc/%s/run" % name)
-            for s, o in zip(c["sels"][0], r["conc"]):
-                both = o["a"] != o["b"] and o["a"] in o["seen"] and o["b"] in o["seen"]
-                hist(ctx, "lifeconc/%s/%s" % (name, "both-answers-seen" if both else "one-answer-seen"))
-                stray = [x for x in o["seen"] if x not in (o["a"], o["b"])]
-                if stray:
-                    ctx.fail("reload/%s/concurrent-selection-from-neither-configuration" % name,
-                             "%s, generation %d, libver %d%s, seed %s, with %d reloads alternating between two files: answered %s; the "
-                             "configuration before the reload gives %s, the one after it %s -- the answer is not the pure function of "
-                             "either configuration in force" % (entry, s["gen"], s["lv"], "" if name == "registrar" else ", v6 %s" % s["v6"],
-                                                                s["seed"].hex(), stray[:3], o["a"], o["b"]), b1)
+            n = len(c["files"])
+            ctx.count(("lifeconc", name, to_json(c), r["ops"]), nontrivial=True, kind="lifeconc/%s/run" % name)
+            for w, segs in enumerate(r["workers"]):
+                lb, steps = 0, 0
+                for sg in segs:
+                    s = c["sels"][0][sg["sel"]]
+                    ks = [k for k in range(n) if sg["mask"] >> k & 1]
+                    who = "%s, worker %d, generation %d, libver %d%s, seed %s" % (
+                        entry, w, s["gen"], s["lv"], "" if name == "registrar" else ", v6 %s" % s["v6"], s["seed"].hex())
+                    fresh = [r["fresh"][k][sg["sel"]] for k in range(n)]
+                    if not ks:
+                        ctx.fail("reload/%s/concurrent-selection-from-no-configuration" % name,
+                                 "%s, while reloads take the files 0..%d in order: answered %s, which is the answer under none of them "
+                                 "(%s) -- not the pure function of any configuration that was in force" % (who, n - 1, sg["ans"], fresh), b1)
+                        break
+                    cand = [k for k in ks if k >= lb]
+                    if not cand:
+                        ctx.fail("reload/%s/selection-from-a-replaced-configuration" % name,
+                                 "%s: answered %s, the answer under file(s) %s only, after this same worker had already been answered "
+                                 "from file %d, which replaced them (answers per file: %s) -- the configuration in force is the file of "
+                                 "the last successful load" % (who, sg["ans"], ks, lb, fresh), b1)
+                        break
+                    if min(cand) > lb:
+                        steps += 1
+                    lb = min(cand)
+                hist(ctx, "lifeconc/%s/%s" % (name, "reload-observed-mid-run" if steps else "no-reload-observed"))
 
 
-CONC_REQUIRED = ["lifeconc/station/run", "lifeconc/registrar/run", "lifeconc/station/both-answers-seen",
-                 "lifeconc/registrar/both-answers-seen"]
+CONC_REQUIRED = ["lifeconc/station/run", "lifeconc/registrar/run", "lifeconc/station/reload-observed-mid-run",
+                 "lifeconc/registrar/reload-observed-mid-run"]
